@@ -162,10 +162,12 @@ func (br *BodyBuffer) Reset() error {
 	if environment.HasAccessToFS && br.writer != nil {
 		w := br.writer
 		br.writer = nil
-		if err := w.Close(); err != nil {
+		// the file is removed even when closing it fails: nothing else knows its name
+		closeErr := w.Close()
+		if err := os.Remove(w.Name()); err != nil {
 			return err
 		}
-		return os.Remove(w.Name())
+		return closeErr
 	}
 
 	return nil
